@@ -399,6 +399,52 @@ def run(relname, workers, limit, only):
         sh("rm -rf %s %s" % (r, v))
 
 
+def rerun(workers):
+    """judge the survivors (and the runs that did not end) again with the checks as they are now"""
+    import glob
+    import queue
+    for k in range(workers):
+        setup_worker(k)
+    jobs = []
+    files = {}
+    for p in sorted(glob.glob(os.path.join(OUT, "*.jsonl"))):
+        rows = [json.loads(l) for l in open(p)]
+        files[p] = rows
+        relfile = "curtsies/" + os.path.basename(p).replace(".jsonl", ".py")
+        src = open(os.path.join(REPO, relfile)).read()
+        for i, r in enumerate(rows):
+            if r["status"] in ("SURVIVED", "TIMEOUT") and not r.get("triage"):
+                jobs.append((p, i, relfile, src))
+    q = queue.Queue()
+    for j in jobs:
+        q.put(j)
+    lock = __import__("threading").Lock()
+    print("%d mutants to judge again" % len(jobs), flush=True)
+
+    def work(k):
+        while True:
+            try:
+                p, i, relfile, src = q.get_nowait()
+            except queue.Empty:
+                return
+            r = files[p][i]
+            pt = {kk: r[kk] for kk in ("fn", "kind", "desc", "node_id", "line")}
+            res = judge(k, relfile, src, pt, r["props"])
+            with lock:
+                files[p][i] = dict(r, **res)
+                print("%-45s %-8s line %-4d %-28s -> %s %s" % (r["fn"][:45], r["kind"], r["line"], r["desc"][:28],
+                                                            res["status"], ",".join(res.get("by", []))), flush=True)
+    with ThreadPoolExecutor(workers) as ex:
+        list(ex.map(work, range(workers)))
+    for p, rows in files.items():
+        with open(p, "w") as f:
+            for r in rows:
+                f.write(json.dumps(r) + "\n")
+    for k in range(workers):
+        r_, v_ = worker_dirs(k)
+        sh("rm -rf %s %s" % (r_, v_))
+
+
 def report():
     import glob
     for p in sorted(glob.glob(os.path.join(OUT, "*.jsonl"))):
@@ -426,5 +472,7 @@ if __name__ == "__main__":
         limit = int(args[args.index("--limit") + 1]) if "--limit" in args else 0
         only = args[args.index("--only") + 1] if "--only" in args else None
         run(sys.argv[2], workers, limit, only)
+    elif cmd == "rerun":
+        rerun(int(sys.argv[2]) if len(sys.argv) > 2 else 4)
     elif cmd == "report":
         report()
